@@ -383,18 +383,44 @@ func (vc *FnVC) mapSite(kind string, m ssa.Value, args []TV, pos token.Pos) {
 	if vc.ct == nil {
 		return
 	}
-	u, ok := m.(*ssa.UnOp)
-	if !ok {
-		return
+	name := kind
+	if u, ok := m.(*ssa.UnOp); ok {
+		if fa, ok := u.X.(*ssa.FieldAddr); ok {
+			st := fa.X.Type().Underlying().(*types.Pointer).Elem().Underlying().(*types.Struct)
+			name = kind + ":" + st.Field(fa.Field).Name()
+		}
 	}
-	fa, ok := u.X.(*ssa.FieldAddr)
-	if !ok {
-		return
+	// ordinal in source order among the sites of the same name
+	ord := 1
+	for _, b := range vc.fn.Blocks {
+		for _, in := range b.Instrs {
+			var mv ssa.Value
+			k2 := ""
+			switch y := in.(type) {
+			case *ssa.MapUpdate:
+				mv, k2 = y.Map, "mapupdate"
+			case *ssa.Call:
+				if bi, ok := y.Call.Value.(*ssa.Builtin); ok && bi.Name() == "delete" {
+					mv, k2 = y.Call.Args[0], "delete"
+				}
+			}
+			if mv == nil || k2 != kind || in.Pos() >= pos {
+				continue
+			}
+			n2 := k2
+			if u, ok := mv.(*ssa.UnOp); ok {
+				if fa, ok := u.X.(*ssa.FieldAddr); ok {
+					st := fa.X.Type().Underlying().(*types.Pointer).Elem().Underlying().(*types.Struct)
+					n2 = k2 + ":" + st.Field(fa.Field).Name()
+				}
+			}
+			if n2 == name {
+				ord++
+			}
+		}
 	}
-	st := fa.X.Type().Underlying().(*types.Pointer).Elem().Underlying().(*types.Struct)
-	name := kind + ":" + st.Field(fa.Field).Name()
-	vc.callOrd[name]++
-	vc.siteAsserts(name, vc.callOrd[name], vc.cur, args, pos)
+	vc.callOrd[name] = ord
+	vc.siteAsserts(name, ord, vc.cur, args, pos)
 	vc.pendingSite = name
 	vc.pendingArgs = args
 }
